@@ -26,7 +26,7 @@ REQUIRED_COUNTERS = ['decodes', 'judged_accept', 'judged_reject']
 
 
 def time_limit(tier):
-    return 900 if tier == 'quick' else 5400
+    return common.default_limit(tier)
 
 
 def budget(tier):
